@@ -13,13 +13,9 @@ use crate::timezone::fixed_timezone;
 pub type DateTimeType = StdDateTime<Tz>;
 
 pub fn make_date_time(date: StdDateTime<FixedOffset>) -> Result<DateTimeType, String> {
-    use chrono::LocalResult;
     if let Ok(tz) = find_timezone(&fixed_timezone(&date.offset().to_string())) {
-        Ok(match tz.from_local_datetime(&date.naive_local()) {
-            LocalResult::Single(val) => val,
-            LocalResult::Ambiguous(v1, _) => v1,
-            LocalResult::None => return Err(format!("Can't create datetime with timezone {tz}")),
-        })
+        // Keeps the instant, whatever the timezone found for the offset
+        Ok(tz.from_utc_datetime(&date.naive_utc()))
     } else {
         Err("Invalid timezone".into())
     }
@@ -59,6 +55,8 @@ fn find_timezone(name: &str) -> Result<Tz, String> {
             let prefixes = vec![
                 "Africa",
                 "America",
+                "Antarctica",
+                "Arctic",
                 "Asia",
                 "Atlantic",
                 "Australia",
